@@ -32,6 +32,7 @@ type G struct {
 	lockOn *lockState
 	wantW  bool
 	what   string
+	held   []heldLock
 }
 
 type schan struct {
@@ -85,6 +86,8 @@ func resetScheduler() {
 	sch = &scheduler{gs: []*G{m}, cur: m, main: m, locks: map[*value]*lockState{}, MaxPreempt: 2}
 	if X != nil && X.MaxPreempt > 0 {
 		sch.MaxPreempt = X.MaxPreempt
+	} else if X != nil && X.MaxPreempt < 0 {
+		sch.MaxPreempt = 0 // no preemption: a goroutine runs until it blocks
 	}
 }
 
@@ -573,6 +576,7 @@ func extMutexLock(fr *frame, args []value) value {
 		block("Lock")
 	}
 	ls.writer = sch.cur
+	sch.cur.held = append(sch.cur.held, heldLock{ls, true})
 	return nil
 }
 
@@ -582,6 +586,7 @@ func extMutexUnlock(fr *frame, args []value) value {
 		panic(targetPanic{iface{types.Typ[types.String], "sync: unlock of unlocked mutex"}})
 	}
 	ls.writer = nil
+	dropHeld(sch.cur, ls)
 	wakeLockWaiters(ls)
 	yield()
 	return nil
@@ -597,6 +602,7 @@ func extMutexRLock(fr *frame, args []value) value {
 		block("RLock")
 	}
 	ls.readers++
+	sch.cur.held = append(sch.cur.held, heldLock{ls, false})
 	return nil
 }
 
@@ -606,7 +612,17 @@ func extMutexRUnlock(fr *frame, args []value) value {
 		panic(targetPanic{iface{types.Typ[types.String], "sync: RUnlock of unlocked RWMutex"}})
 	}
 	ls.readers--
+	dropHeld(sch.cur, ls)
 	wakeLockWaiters(ls)
 	yield()
 	return nil
+}
+
+func dropHeld(g *G, ls *lockState) {
+	for i := len(g.held) - 1; i >= 0; i-- {
+		if g.held[i].ls == ls {
+			g.held = append(g.held[:i:i], g.held[i+1:]...)
+			return
+		}
+	}
 }
